@@ -1,7 +1,8 @@
 """Regenerates lean/AioslskVerif/Generated/DistSearchConstants.lean (AST of protocol/messages.py, distributed.py,
 search/manager.py).
 
-Extracted:
+Extracted (AST reading; since round 5 cross-checked against — and, when the shape is unknown, replaced by — the BEHAVIOURAL
+reading `behaviour`: all 256 values of the uint8 `distributed_code` are run through the real legacy handlers of both managers):
 * `searchCode`     — `DistributedSearchRequest.Request.MESSAGE_ID` (the only `distributed_code` the legacy carrier
                      `DistributedServerSearchRequest` is unwrapped for);
 * `legacyUnknown`  — the literal `unknown=` of the `DistributedSearchRequest.Request(...)` built by
@@ -9,6 +10,14 @@ Extracted:
 and it is checked (shape, raises otherwise) that both legacy handlers (`DistributedNetwork` and `SearchManager`)
 guard with `message.distributed_code != DistributedSearchRequest.Request.MESSAGE_ID`, i.e. that the code compared
 against is that same constant.
+
+* `obfAfterInit`   — BEHAVIOURAL reading (no shape assumed, any refactoring with the same effect gives the same table):
+                     for each connection type ("P", "D", "F") and each value of the `obfuscated` flag a
+                     `PeerConnection` of the tree under check is created with that flag (what accepting it on the
+                     obfuscated / plain listening port, or opening it to an obfuscated / plain port, does), the library's
+                     own initialisation step `Network._finalize_peer_connection` is run on it — the step taken after the
+                     PeerInit of an accepted connection was read, after our PeerInit on a connection we opened, and after a
+                     PeerPierceFirewall — and the flag is read back: the wire form of everything written afterwards.
 """
 import ast
 from pathlib import Path
@@ -54,7 +63,104 @@ def _check_code_guard(fn, where):
                              '`if message.distributed_code != DistributedSearchRequest.Request.MESSAGE_ID: …return`')
 
 
+def _from_tree(repo: Path, *names):
+    import importlib
+    mods = [importlib.import_module(n) for n in names]
+    for mod in mods:
+        if not Path(mod.__file__).resolve().is_relative_to((repo / 'src').resolve()):
+            raise TranslateError(f'{mod.__name__} was imported from {mod.__file__}, not from the tree under check {repo}')
+    return mods
+
+
+def behaviour(repo: Path) -> dict:
+    """BEHAVIOURAL reading of the legacy carrier (used alone when the handlers do not have the shape `extract_ast` knows,
+    cross-checked against it otherwise). `distributed_code` is a uint8: all 256 values are tried on the real handlers of
+    both managers (no session, so the own-name filter is out of play); `send_messages_to_children` of the
+    `DistributedNetwork` instance and `_query_shares_and_reply` of the `SearchManager` instance record what reaches them.
+    Demanded: both managers act on exactly one and the same code, it is `DistributedSearchRequest.Request.MESSAGE_ID`, the
+    request passed on is a `DistributedSearchRequest.Request` with the carrier's user / ticket / query and an `unknown` that
+    does not depend on the carrier's."""
+    import asyncio
+    dist, smod, msgs, nw = _from_tree(repo, 'aioslsk.distributed', 'aioslsk.search.manager', 'aioslsk.protocol.messages',
+                                      'aioslsk.network.network')
+    from aioslsk.events import EventBus
+    from aioslsk.settings import Settings
+
+    async def probe():
+        settings = Settings(credentials={'username': 'u', 'password': 'p'})
+        bus = EventBus()
+        net = nw.Network(settings, bus)
+        dn = dist.DistributedNetwork(settings, bus, net)
+        sm = smod.SearchManager(settings, bus, object(), object(), net)
+        for obj, attr in ((dn, 'send_messages_to_children'), (sm, '_query_shares_and_reply'),
+                          (dn, '_on_distributed_server_search_request'), (sm, '_on_distributed_server_search_request')):
+            if not callable(getattr(obj, attr, None)):
+                raise TranslateError(f'{type(obj).__name__}.{attr} not found')
+        passed, queried = [], []
+
+        async def to_children(*messages):
+            passed.append(messages)
+
+        async def query(*a, **k):
+            queried.append((a, k))
+        dn.send_messages_to_children = to_children
+        sm._query_shares_and_reply = query
+        fwd_codes, ans_codes, unknowns = [], [], set()
+        for code in range(256):
+            for unk in (7, 0x99):
+                del passed[:], queried[:]
+                msg = msgs.DistributedServerSearchRequest.Request(
+                    distributed_code=code, unknown=unk, username='someone', ticket=1234 + code, query='some query')
+                await dn._on_distributed_server_search_request(msg, None)
+                await sm._on_distributed_server_search_request(msg, None)
+                if passed:
+                    if len(passed) != 1 or len(passed[0]) != 1 or \
+                            not isinstance(passed[0][0], msgs.DistributedSearchRequest.Request):
+                        raise TranslateError(f'legacy carrier with code {code}: passed on as {passed!r}')
+                    out = passed[0][0]
+                    if (out.username, out.ticket, out.query) != ('someone', 1234 + code, 'some query'):
+                        raise TranslateError(f'legacy carrier with code {code}: user / ticket / query altered: {out!r}')
+                    fwd_codes.append(code)
+                    unknowns.add(out.unknown)
+                if queried:
+                    if len(queried) != 1:
+                        raise TranslateError(f'legacy carrier with code {code}: the shares are queried {len(queried)} times')
+                    ans_codes.append(code)
+        return sorted(set(fwd_codes)), sorted(set(ans_codes)), unknowns
+    import logging
+    was = logging.root.manager.disable
+    logging.disable(logging.CRITICAL)          # (255 codes are refused with a warning each)
+    try:
+        fwd_codes, ans_codes, unknowns = asyncio.run(probe())
+    except TranslateError:
+        raise
+    except Exception as e:
+        raise TranslateError(f'the legacy carrier handlers could not be run: {type(e).__name__}: {e}')
+    finally:
+        logging.disable(was)
+    mid = int(msgs.DistributedSearchRequest.Request.MESSAGE_ID)
+    if fwd_codes != [mid] or ans_codes != [mid]:
+        raise TranslateError(f'legacy carrier: passed on for codes {fwd_codes}, answered for codes {ans_codes}; '
+                             f'DistributedSearchRequest.Request.MESSAGE_ID is {mid}')
+    if len(unknowns) != 1 or not isinstance(next(iter(unknowns)), int) or isinstance(next(iter(unknowns)), bool):
+        raise TranslateError(f'legacy carrier: `unknown` of the request passed on is not one constant: {sorted(unknowns)!r}')
+    return {'SEARCH_CODE': mid, 'LEGACY_UNKNOWN': int(next(iter(unknowns)))}
+
+
 def extract(repo: Path) -> dict:
+    """the AST reading when the source has the known shape, cross-checked against the behavioural one; the behavioural
+    reading alone when the shape is unknown (a refactoring)"""
+    b = behaviour(repo)
+    try:
+        a = extract_ast(repo)
+    except TranslateError:
+        return b
+    if a != b:
+        raise TranslateError(f'the source reads {a}, the running code behaves as {b}')
+    return a
+
+
+def extract_ast(repo: Path) -> dict:
     out = {}
     mtree = ast.parse((repo / 'src/aioslsk/protocol/messages.py').read_text())
     req = _class(_class(mtree, 'DistributedSearchRequest', 'messages.py'), 'Request', 'messages.py')
@@ -93,14 +199,60 @@ def extract(repo: Path) -> dict:
     return out
 
 
+def obf_after_init(repo: Path) -> dict:
+    """{'peer' | 'distributed' | 'file': (flag after init when it was False, … when it was True)}"""
+    import asyncio
+    cn, nw = _from_tree(repo, 'aioslsk.network.connection', 'aioslsk.network.network')
+    from aioslsk.events import EventBus
+    from aioslsk.settings import Settings
+
+    async def probe():
+        net = nw.Network(Settings(credentials={'username': 'u', 'password': 'p'}), EventBus())
+        out = {}
+        for name, typ in (('peer', cn.PeerConnectionType.PEER), ('distributed', cn.PeerConnectionType.DISTRIBUTED),
+                          ('file', cn.PeerConnectionType.FILE)):
+            after = []
+            for flag in (False, True):
+                conn = cn.PeerConnection('10.0.0.1', 2234, net, obfuscated=flag, incoming=True)
+                conn.connection_type = typ              # (taken from the PeerInit / the request)
+                if conn.obfuscated is not flag:
+                    raise TranslateError('PeerConnection(obfuscated=…) does not store the flag in `.obfuscated`')
+                net._finalize_peer_connection(conn)
+                if not isinstance(conn.obfuscated, bool):
+                    raise TranslateError(f'`obfuscated` of a {typ} connection is {conn.obfuscated!r} after initialisation')
+                after.append(conn.obfuscated)
+                conn.stop_reader_task()
+            out[name] = tuple(after)
+        return out
+    try:
+        return asyncio.run(probe())
+    except TranslateError:
+        raise
+    except Exception as e:
+        raise TranslateError(f'the initialisation step of a peer connection could not be run: {type(e).__name__}: {e}')
+
+
 def generate(repo: Path, lean_dir: Path) -> str:
     c = extract(repo)
-    text = f'''-- GENERATED by translate/distsearch_constants.py from /repo/src/aioslsk/{{protocol/messages,distributed,search/manager}}.py — do not edit.
+    obf = obf_after_init(repo)
+
+    def lb(b: bool) -> str:
+        return 'true' if b else 'false'
+    text = f'''-- GENERATED by translate/distsearch_constants.py from /repo/src/aioslsk/{{protocol/messages,distributed,search/manager,network/network,network/connection}}.py — do not edit.
 namespace AioslskVerif.Generated.DistSearch
 /-- `DistributedSearchRequest.Request.MESSAGE_ID` -/
 def searchCode : Nat := {c['SEARCH_CODE']}
 /-- `unknown=` of the request unwrapped from the legacy carrier -/
 def legacyUnknown : Nat := {c['LEGACY_UNKNOWN']}
+/-- `obfuscated` of a connection after `Network._finalize_peer_connection`, as a function of the flag before, per type -/
+structure ObfAfterInit where
+  peer : Bool → Bool
+  distributed : Bool → Bool
+  file : Bool → Bool
+def obfAfterInit : ObfAfterInit where
+  peer := fun b => if b then {lb(obf['peer'][1])} else {lb(obf['peer'][0])}
+  distributed := fun b => if b then {lb(obf['distributed'][1])} else {lb(obf['distributed'][0])}
+  file := fun b => if b then {lb(obf['file'][1])} else {lb(obf['file'][0])}
 end AioslskVerif.Generated.DistSearch
 '''
     p = lean_dir / 'AioslskVerif/Generated/DistSearchConstants.lean'
